@@ -6,38 +6,25 @@ import Proofs.C05ValueBase
 namespace C05Value
 open CrashValue
 
-theorem known_date : known ⟨.unmarshalDate, .index⟩ = true := by decide
-theorem known_list : known ⟨.unmarshalList, .reflectMakeslice⟩ = true := by decide
-theorem known_readBytes : known ⟨.readBytes, .slice⟩ = true := by decide
-theorem known_tupleIndex : known ⟨.unmarshalTuple, .index⟩ = true := by decide
-theorem known_tupleReflect : known ⟨.unmarshalTuple, .reflect⟩ = true := by decide
-theorem known_udtReflect : known ⟨.unmarshalUDT, .reflect⟩ = true := by decide
-
 /-! ### scalars -/
 
 theorem nocrash_bind_ok {α : Type} {x : Res α} (hx : NoCrash x) : NoCrash (x >>= fun _ => (Res.ok () : Outcome)) :=
   nocrash_bind hx (fun _ _ => nocrash_ok _)
 
-theorem date_safe (fx : Bool) (d : Bytes) :
-    Safe fx (if d.length = 0 then (Res.ok () : Outcome) else do
-            fixGuard fx (d.length < 4)
+/-- `binary.BigEndian.Uint32(data)` behind `if len(data) < 4 { return error }` -/
+theorem date_safe (d : Bytes) :
+    Safe (if d.length = 0 then (Res.ok () : Outcome) else do
+            errIf (d.length < 4)
             if 3 < d.length then .ok () else .crash ⟨.unmarshalDate, .index⟩) := by
   split
   · simp
-  · cases fx with
-    | false =>
-      simp only [fixGuard, Bool.false_and, Bool.false_eq_true, if_false, ok_bind]
-      split
-      · simp
-      · intro s hs; cases hs; exact ⟨rfl, known_date⟩
-    | true =>
-      simp only [fixGuard, Bool.true_and, decide_eq_true_eq]
-      split
-      · simp
-      · have h : 3 < d.length := by omega
-        simp [h]
+  · simp only [errIf, decide_eq_true_eq]
+    split
+    · simp
+    · have h : 3 < d.length := by omega
+      simp [h]
 
-theorem varint_safe (fx : Bool) (g : GT) (d : Bytes) : Safe fx (scalar fx .varint g (some d)) := by
+theorem varint_safe (g : GT) (d : Bytes) : Safe (scalar .varint g (some d)) := by
   apply NoCrash.safe
   simp only [scalar, Option.getD]
   split
@@ -67,18 +54,18 @@ theorem varint_safe (fx : Bool) (g : GT) (d : Bytes) : Safe fx (scalar fx .varin
             · simp
           · intro v _; exact intlike_nocrash _ _ _
 
-theorem scalar_safe (fx : Bool) (n : Native) (g : GT) (data : Option Bytes) : Safe fx (scalar fx n g data) := by
+theorem scalar_safe (n : Native) (g : GT) (data : Option Bytes) : Safe (scalar n g data) := by
   cases n
   case date =>
     simp only [scalar]
     split
-    · exact date_safe fx _
-    · exact date_safe fx _
+    · exact date_safe _
+    · exact date_safe _
     · simp
   case varint =>
     cases data with
-    | none => exact varint_safe fx g []
-    | some d => exact varint_safe fx g d
+    | none => exact varint_safe g []
+    | some d => exact varint_safe g d
   all_goals apply NoCrash.safe
   all_goals simp only [scalar]
   case custom => simp
@@ -136,15 +123,15 @@ theorem scalar_safe (fx : Bool) (n : Native) (g : GT) (data : Option Bytes) : Sa
 
 /-! ### goType -/
 
-theorem goType_safe (fx : Bool) : ∀ t : CT, Safe fx (goType fx t)
+theorem goType_safe : ∀ t : CT, Safe (goType t)
   | .nat n => by cases n <;> simp [goType]
   | .list e => by
       simp only [goType]
-      exact safe_bind (goType_safe fx e) (fun _ _ => safe_ok _)
+      exact safe_bind (goType_safe e) (fun _ _ => safe_ok _)
   | .map k v => by
       simp only [goType]
-      apply safe_bind (goType_safe fx k); intro gk _
-      apply safe_bind (goType_safe fx v); intro gv _
+      apply safe_bind (goType_safe k); intro gk _
+      apply safe_bind (goType_safe v); intro gv _
       split
       · simp
       · exact safe_err
@@ -206,9 +193,9 @@ theorem readElem_cases (fn : Fn) (proto : Nat) (d : Bytes) :
       simp only [List.length_drop]
       omega
 
-theorem listLoop_safe (fx : Bool) (proto : Nat) (f : Option Bytes → Outcome) (len : Nat)
-    (hf : ∀ ed, Safe fx (f ed)) :
-    ∀ (cnt i : Nat) (d : Bytes), i + cnt ≤ len → Safe fx (listLoop proto f len cnt i d)
+theorem listLoop_safe (proto : Nat) (f : Option Bytes → Outcome) (len : Nat)
+    (hf : ∀ ed, Safe (f ed)) :
+    ∀ (cnt i : Nat) (d : Bytes), i + cnt ≤ len → Safe (listLoop proto f len cnt i d)
   | 0, _, _, _ => by simp [listLoop]
   | cnt+1, i, d, h => by
       simp only [listLoop]
@@ -217,23 +204,23 @@ theorem listLoop_safe (fx : Bool) (proto : Nat) (f : Option Bytes → Outcome) (
       · have hi : i < len := by omega
         simp only [he, ok_bind, hi, if_true]
         apply safe_bind (hf ed); intro _ _
-        exact listLoop_safe fx proto f len hf cnt (i+1) rest (by omega)
+        exact listLoop_safe proto f len hf cnt (i+1) rest (by omega)
 
-theorem makeCount_safe (fx : Bool) (n : Int) (avail p : Nat) : Safe fx (makeCount fx n avail p) := by
+theorem makeCount_safe (n : Int) (avail p : Nat) : Safe (makeCount n avail p) := by
   unfold makeCount
   split
-  · exact safe_crashOrErr known_list
+  · simp
   · split <;> simp
 
-theorem makeMapCount_nocrash (fx : Bool) (n : Int) (avail p : Nat) : NoCrash (makeMapCount fx n avail p) := by
+theorem makeMapCount_nocrash (n : Int) (avail p : Nat) : NoCrash (makeMapCount n avail p) := by
   unfold makeMapCount
   split
   · simp
   · split <;> simp
 
-theorem unmarshalList_safe (fx : Bool) (proto : Nat) (elem : GT → Option Bytes → Outcome)
-    (he : ∀ g d, Safe fx (elem g d)) (g : GT) (data : Option Bytes) :
-    Safe fx (unmarshalList fx proto elem g data) := by
+theorem unmarshalList_safe (proto : Nat) (elem : GT → Option Bytes → Outcome)
+    (he : ∀ g d, Safe (elem g d)) (g : GT) (data : Option Bytes) :
+    Safe (unmarshalList proto elem g data) := by
   unfold unmarshalList
   split
   · simp
@@ -249,13 +236,13 @@ theorem unmarshalList_safe (fx : Bool) (proto : Nat) (elem : GT → Option Bytes
           · simp
           · rename_i hn
             have : (alen : Int) = n := by simpa using hn
-            exact listLoop_safe fx proto (elem e) alen (he e) n.toNat 0 _ (by omega)
-        · apply safe_bind (makeCount_safe fx n _ p); intro cnt _
-          exact listLoop_safe fx proto (elem e) cnt (he e) cnt 0 _ (by omega)
+            exact listLoop_safe proto (elem e) alen (he e) n.toNat 0 _ (by omega)
+        · apply safe_bind (makeCount_safe n _ p); intro cnt _
+          exact listLoop_safe proto (elem e) cnt (he e) cnt 0 _ (by omega)
 
-theorem mapLoop_safe (fx : Bool) (proto : Nat) (fk fv : Option Bytes → Outcome)
-    (hk : ∀ ed, Safe fx (fk ed)) (hv : ∀ ed, Safe fx (fv ed)) :
-    ∀ (cnt : Nat) (d : Bytes), Safe fx (mapLoop proto fk fv cnt d)
+theorem mapLoop_safe (proto : Nat) (fk fv : Option Bytes → Outcome)
+    (hk : ∀ ed, Safe (fk ed)) (hv : ∀ ed, Safe (fv ed)) :
+    ∀ (cnt : Nat) (d : Bytes), Safe (mapLoop proto fk fv cnt d)
   | 0, _ => by simp [mapLoop]
   | cnt+1, d => by
       simp only [mapLoop]
@@ -267,11 +254,11 @@ theorem mapLoop_safe (fx : Bool) (proto : Nat) (fk fv : Option Bytes → Outcome
         · simp [he2]
         · simp only [he2, ok_bind]
           apply safe_bind (hv vd); intro _ _
-          exact mapLoop_safe fx proto fk fv hk hv cnt rest2
+          exact mapLoop_safe proto fk fv hk hv cnt rest2
 
-theorem unmarshalMap_safe (fx : Bool) (proto : Nat) (key val : GT → Option Bytes → Outcome)
-    (hk : ∀ g d, Safe fx (key g d)) (hv : ∀ g d, Safe fx (val g d)) (g : GT) (data : Option Bytes) :
-    Safe fx (unmarshalMap fx proto key val g data) := by
+theorem unmarshalMap_safe (proto : Nat) (key val : GT → Option Bytes → Outcome)
+    (hk : ∀ g d, Safe (key g d)) (hv : ∀ g d, Safe (val g d)) (g : GT) (data : Option Bytes) :
+    Safe (unmarshalMap proto key val g data) := by
   unfold unmarshalMap
   split
   · rename_i gk gv
@@ -281,9 +268,9 @@ theorem unmarshalMap_safe (fx : Bool) (proto : Nat) (key val : GT → Option Byt
       rcases readCollectionSize_cases proto d with h | ⟨n, p, h, hp, _⟩
       · simp [h]
       · simp only [h, ok_bind]
-        apply safe_bind (makeMapCount_nocrash fx n _ p).safe; intro cnt _
+        apply safe_bind (makeMapCount_nocrash n _ p).safe; intro cnt _
         simp only [sliceFrom_ok hp, ok_bind]
-        exact mapLoop_safe fx proto _ _ (hk gk) (hv gv) _ _
+        exact mapLoop_safe proto _ _ (hk gk) (hv gv) _ _
   · simp
 
 /-! ### readBytes -/
@@ -297,36 +284,26 @@ theorem readInt_ok {d : Bytes} (h : 4 ≤ d.length) : ∃ v, readInt d = .ok v :
   exact ⟨_, rfl⟩
 
 /-- readBytes behind its `len(data) >= 4` guard: the header read and `p[4:]` are in bounds; the
-    only crash is `p[:size]` with size beyond the data (known; an error in the fixed variant) -/
-theorem readBytes_safe (fx : Bool) {d : Bytes} (h : 4 ≤ d.length) : Safe fx (readBytes fx d) := by
+    slices `p[:size]` / `p[size:]` are behind `if int(size) > len(p) { return error }` -/
+theorem readBytes_safe {d : Bytes} (h : 4 ≤ d.length) : Safe (readBytes d) := by
   obtain ⟨v, hv⟩ := readInt_ok h
   simp only [readBytes, hv, ok_bind, sliceFrom_ok h]
   split
   · simp
-  · cases fx with
-    | false =>
-      simp only [fixGuard, Bool.false_and, Bool.false_eq_true, if_false, ok_bind]
-      by_cases hfit : v.toNat ≤ (List.drop 4 d).length
-      · simp [sliceTo_ok hfit, sliceFrom_ok hfit]
-      · intro s hs
-        simp only [sliceTo, hfit, if_false, crash_bind] at hs
-        cases hs
-        exact ⟨rfl, known_readBytes⟩
-    | true =>
-      simp only [fixGuard, Bool.true_and, decide_eq_true_eq]
-      split
-      · simp
-      · have hfit : v.toNat ≤ (List.drop 4 d).length := by omega
-        simp [sliceTo_ok hfit, sliceFrom_ok hfit]
+  · simp only [errIf, decide_eq_true_eq]
+    split
+    · simp
+    · have hfit : v.toNat ≤ (List.drop 4 d).length := by omega
+      simp [sliceTo_ok hfit, sliceFrom_ok hfit]
 
-theorem tupleField_safe (fx : Bool) (d : Bytes) : Safe fx (tupleField fx d) := by
+theorem tupleField_safe (d : Bytes) : Safe (tupleField d) := by
   unfold tupleField
   split
-  · rename_i h; exact readBytes_safe fx h
+  · rename_i h; exact readBytes_safe h
   · simp
 
-theorem unmG_safe {fx : Bool} {core : GT → Option Bytes → Outcome} (h : ∀ g d, Safe fx (core g d))
-    (g : GT) (d : Option Bytes) : Safe fx (unmG core g d) := by
+theorem unmG_safe {core : GT → Option Bytes → Outcome} (h : ∀ g d, Safe (core g d))
+    (g : GT) (d : Option Bytes) : Safe (unmG core g d) := by
   unfold unmG
   split
   · split
